@@ -403,6 +403,8 @@ func c19OnlyIfPaths(c *Ctx, fn *ssa.Function, sel *ssa.Select, st *ssa.SelectSta
 	nSeen := 0
 	why := ""
 	abort := ""
+	var changesHdr *ssa.BasicBlock
+	var interestRange *ssa.Range
 	for _, entry := range entries {
 		for _, p := range c.pathsO("R-C19-3", entry, an.PathOpts{EmitCut: true}) {
 			var chE, sendE *an.Expr
@@ -485,6 +487,18 @@ func c19OnlyIfPaths(c *Ctx, fn *ssa.Function, sel *ssa.Select, st *ssa.SelectSta
 				fail("interface name used for the lookup and the change sent do not come from the same changeSet entry")
 				continue
 			}
+			// remember the loop over the changes and the range over the interest map
+			sendE.Args[1].Walk(func(x *an.Expr) bool {
+				if x.Op == an.OpLoop {
+					if ph, ok := x.V.(*ssa.Phi); ok {
+						changesHdr = ph.Block()
+					}
+				}
+				return true
+			})
+			if rg, ok := nxInner.Iter.(*ssa.Range); ok {
+				interestRange = rg
+			}
 			if commaOk {
 				tested := false
 				for _, a := range p.Atoms {
@@ -498,6 +512,37 @@ func c19OnlyIfPaths(c *Ctx, fn *ssa.Function, sel *ssa.Select, st *ssa.SelectSta
 				}
 			}
 		}
+	}
+	// "if and only if": every change of the batch is offered to the interest map — no iteration over the
+	// changes of an interface skips the range over its subscriptions (de-duplication, rate limiting …)
+	skipFact := ""
+	if changesHdr != nil && interestRange != nil {
+		for _, entry := range entries {
+			for _, p := range c.pathsO("R-C19-3", entry, an.PathOpts{EmitCut: true}) {
+				if !p.Cut || p.CutTo != changesHdr {
+					continue
+				}
+				ranged := false
+				p.Instrs(func(in ssa.Instruction) {
+					if in == ssa.Instruction(interestRange) {
+						ranged = true
+					}
+				})
+				if !ranged {
+					skipFact = "an iteration over the changes returns to the loop head without ranging over the subscriptions (under " + lastAtomName(p) + ")"
+				}
+			}
+		}
+	}
+	if why == "" && nSeen >= 1 {
+		c.R.Check(skipFact == "" && changesHdr != nil, "R-C19-3", c.fname(fn)+":every-change-offered", c.fname(fn), c.pos(sel.Pos()),
+			func() string {
+				if skipFact != "" {
+					return skipFact
+				}
+				return "every iteration over the changes ranges over the interface's subscriptions"
+			}(),
+			"each change of a batch is matched against every subscription of its interface", "a change that did occur is not delivered to a subscriber that asked for it (dropped as a supposed duplicate)")
 	}
 	fact := fmt.Sprintf("%d path(s) through the send from %d anchored entry function(s); all send changes[i] to m[iface][k][j] under (k & changes[i]) != 0", nSeen, len(entries))
 	if why != "" {
